@@ -213,10 +213,11 @@ impl ToZinc for Str {
 
 impl ToZinc for Ref {
     fn to_zinc<W: std::io::Write>(&self, writer: &mut W) -> Result<()> {
+        writer.write_fmt(format_args!("@{}", self.value))?;
         if let Some(dis) = &self.dis {
-            writer.write_fmt(format_args!("@{} \"{}\"", self.value, dis))?
-        } else {
-            writer.write_fmt(format_args!("@{}", self.value))?
+            // The display name is a Str literal and needs the same escaping
+            writer.write_all(b" ")?;
+            Str::from(dis.as_str()).to_zinc(writer)?;
         }
         Ok(())
     }
@@ -251,11 +252,13 @@ impl ToZinc for Uri {
 impl ToZinc for XStr {
     fn to_zinc<W: std::io::Write>(&self, writer: &mut W) -> Result<()> {
         writer.write_fmt(format_args!(
-            "{}{}(\"{}\")",
+            "{}{}(",
             self.r#type[0..1].to_uppercase(),
             &self.r#type[1..],
-            self.value
         ))?;
+        // The value is a Str literal and needs the same escaping
+        Str::from(self.value.as_str()).to_zinc(writer)?;
+        writer.write_all(b")")?;
         Ok(())
     }
 }
